@@ -12,20 +12,29 @@ import (
 	"time"
 
 	"github.com/tochemey/goakt/v4/breaker"
+	"github.com/tochemey/goakt/v4/verifharness/sched"
 	"github.com/tochemey/goakt/v4/verifharness/vtrace"
 )
 
-// C47: TLC-generated behaviours over {Begin, Pre, End, Tick, Metrics} are executed on a
-// real breaker.CircuitBreaker with a fake clock.  A logical caller is a goroutine inside
-// Execute; its user function is held on a gate owned by this driver, so the real code
-// runs exactly one modelled segment at a time:
+// C47: TLC-generated behaviours over {Begin, Park, Pre, End, Tick, Metrics} are executed on a
+// real breaker.CircuitBreaker with a fake clock.  A logical caller is a logical thread of the
+// puppet scheduler (harness/sched) inside Execute; its user function parks on a driver-side
+// gate (Yield "fn"), so the real code runs exactly one modelled segment at a time:
 //
-//	Begin(c)      start Execute; it either reaches the user function (admitted) or returns (rejected)
-//	End(c, out)   let the user function return `out`; Execute records, releases and returns
+//	B:c  Begin(c)      start Execute; it reaches the user function (admitted) or returns (rejected)
+//	E:c  End(c, out)   let the user function return `out`; Execute records, releases and returns
+//	K:c  Park(c)       (Split only) Execute stops at the hook "breaker.acquire.expired", i.e. inside
+//	                   tryAcquire between the failed test `clock() < openUntil` and toHalfOpen();
+//	                   the next B:c resumes it (toHalfOpen + select)
+//
+// Without Split the hook is stepped through at once, so Begin is one segment.
 type breakerCfg struct {
 	NB, BD, MinReq, RateNum, RateDen, OpenTO, HalfMax int
 	Seed                                              int64
+	Split                                             bool
 }
+
+const hookExpired = "breaker.acquire.expired"
 
 const tick = int64(time.Second)
 
@@ -59,10 +68,12 @@ type callResult struct {
 }
 
 type inflight struct {
-	ctx  *fakeCtx
-	gate chan string
-	done chan callResult
-	fb   bool
+	ctx    *fakeCtx
+	name   string // logical thread
+	out    string // outcome the user function will produce, set before it is released
+	res    callResult
+	fb     bool
+	parked bool // stopped at hookExpired
 }
 
 func classify(err error) (class, est string) {
@@ -147,7 +158,7 @@ func runBreaker(bfile, tfile, cfgJSON string) {
 	if err != nil {
 		die(err)
 	}
-	skipped, predMismatch := 0, 0
+	skipped, predMismatch, stales, parks := 0, 0, 0, 0
 	rnd := uint64(cfg.Seed)*0x9E3779B97F4A7C15 + 0x1234567
 	next := func() uint64 { // splitmix64
 		rnd += 0x9E3779B97F4A7C15
@@ -156,6 +167,7 @@ func runBreaker(bfile, tfile, cfgJSON string) {
 		z = (z ^ (z >> 27)) * 0x94D049BB133111EB
 		return z ^ (z >> 31)
 	}
+	ncall := 0
 	for _, beh := range behaviours {
 		var now atomic.Int64 // ticks
 		clock := func() time.Time { return t0.Add(time.Duration(now.Load() * tick)) }
@@ -167,6 +179,9 @@ func runBreaker(bfile, tfile, cfgJSON string) {
 			breaker.WithOpenTimeout(time.Duration(int64(cfg.OpenTO)*tick)),
 			breaker.WithHalfOpenMaxCalls(cfg.HalfMax),
 		)
+		sc := sched.New()
+		sc.Watchdog = 30 * time.Second
+		sc.Control(br)
 		calls := map[string]*inflight{}
 		w.Raw(map[string]any{"op": "New"})
 
@@ -195,7 +210,8 @@ func runBreaker(bfile, tfile, cfgJSON string) {
 			}
 			w.Raw(ev)
 		}
-		resultFields := func(c string, fl *inflight, r callResult) map[string]any {
+		resultFields := func(fl *inflight) map[string]any {
+			r := fl.res
 			class, est := classify(r.err)
 			val := ""
 			if s, ok := r.val.(string); ok {
@@ -207,8 +223,32 @@ func runBreaker(bfile, tfile, cfgJSON string) {
 			}
 			return map[string]any{"err": class, "est": est, "fb": fl.fb, "fbc": r.fbCalled, "fberr": fberr, "val": val}
 		}
-		start := func(c string, pre bool) (*inflight, bool, callResult) {
-			fl := &inflight{ctx: newFakeCtx(), gate: make(chan string, 1), done: make(chan callResult, 1), fb: next()%2 == 0}
+		// settle interprets where a released thread stopped: at the hook (parked), in the user function
+		// (admitted) or finished (returned without running the user function)
+		settle := func(fl *inflight, p sched.Pending, err error) string {
+			for {
+				if err != nil {
+					die("scheduler:", err)
+				}
+				switch {
+				case p.Done:
+					return "returned"
+				case p.Point == "fn":
+					return "admitted"
+				case p.Point == hookExpired:
+					if cfg.Split && !fl.parked {
+						fl.parked = true
+						return "parked"
+					}
+					p, err = sc.Step(fl.name) // one segment: step through the hook at once
+				default:
+					die("thread parked at an unexpected point", p.String())
+				}
+			}
+		}
+		start := func(c string, pre bool) (*inflight, string) {
+			ncall++
+			fl := &inflight{ctx: newFakeCtx(), name: fmt.Sprintf("%s.%d", c, ncall), fb: next()%2 == 0}
 			if pre {
 				if next()%2 == 0 {
 					fl.ctx.set(context.Canceled)
@@ -216,10 +256,9 @@ func runBreaker(bfile, tfile, cfgJSON string) {
 					fl.ctx.set(context.DeadlineExceeded)
 				}
 			}
-			entered := make(chan struct{})
 			fn := func(ctx context.Context) (any, error) {
-				close(entered)
-				switch out := <-fl.gate; out {
+				sc.Yield("fn", 0, 0)
+				switch fl.out {
 				case "ok":
 					return "v:" + c, nil
 				case "fail":
@@ -233,12 +272,12 @@ func runBreaker(bfile, tfile, cfgJSON string) {
 				case "panic":
 					panic("boom:" + c)
 				default:
-					die("unknown outcome", out)
+					die("unknown outcome", fl.out)
 				}
 				return nil, nil
 			}
-			go func() {
-				var r callResult
+			p, err := sc.Go(fl.name, func() {
+				r := &fl.res
 				if fl.fb {
 					r.val, r.err = br.Execute(fl.ctx, fn, func(_ context.Context, err error) (any, error) {
 						r.fbCalled, r.fbErr = true, err
@@ -247,65 +286,94 @@ func runBreaker(bfile, tfile, cfgJSON string) {
 				} else {
 					r.val, r.err = br.Execute(fl.ctx, fn)
 				}
-				fl.done <- r
-			}()
-			select {
-			case <-entered:
-				return fl, true, callResult{}
-			case r := <-fl.done:
-				return fl, false, r
-			case <-time.After(20 * time.Second):
-				die("watchdog: Execute neither entered fn nor returned")
+			})
+			return fl, settle(fl, p, err)
+		}
+		// begun logs the outcome of the admission segment of c
+		begun := func(c string, fl *inflight, how, predicted string, extra map[string]any) {
+			res := "rejected"
+			x := map[string]any{}
+			if how == "admitted" {
+				res = "admitted"
+				calls[c] = fl
+			} else {
+				delete(calls, c)
+				x = resultFields(fl)
 			}
-			return nil, false, callResult{}
+			for k, v := range extra {
+				x[k] = v
+			}
+			if predicted != "" && predicted != res {
+				predMismatch++
+			}
+			emit("Begin", c, "", res, x)
+		}
+		resume := func(c, predicted string) {
+			fl := calls[c]
+			// the admission test of this caller is stale when toHalfOpen is about to act on a state other than
+			// "open and expired" (it is a no-op when the breaker is half-open already)
+			sh := br.VerifShape()
+			stale := sh.State != breaker.HalfOpen && !(sh.State == breaker.Open && clock().UnixNano() >= sh.OpenUntil)
+			if stale {
+				stales++
+			}
+			p, err := sc.Step(fl.name)
+			how := settle(fl, p, err)
+			begun(c, fl, how, predicted, map[string]any{"stale": stale})
 		}
 		finish := func(c, out string) {
 			fl := calls[c]
 			delete(calls, c)
-			fl.gate <- out
-			select {
-			case r := <-fl.done:
-				emit("End", c, out, "", resultFields(c, fl, r))
-			case <-time.After(20 * time.Second):
-				die("watchdog: Execute did not return after fn returned")
+			fl.out = out
+			p, err := sc.Step(fl.name)
+			if err != nil || !p.Done {
+				die("Execute did not return after the user function returned:", err, p.String())
 			}
+			emit("End", c, out, "", resultFields(fl))
 		}
 
 		for _, s := range beh {
 			f := strings.Split(s, ":")
+			predicted := ""
+			if len(f) > 2 {
+				predicted = f[2]
+			}
 			switch f[0] {
-			case "B", "P":
+			case "B", "P", "K":
 				c := f[1]
-				if calls[c] != nil {
-					skipped++ // the real call is still in flight (the model thought it was rejected)
-					continue
-				}
-				fl, admitted, r := start(c, f[0] == "P")
-				if f[0] == "P" {
-					if admitted {
-						// a done context must never reach fn; finish the call and report it as admitted
-						calls[c] = fl
-						emit("Pre", c, "", "admitted", map[string]any{"err": "", "est": "", "fb": fl.fb, "fbc": false, "fberr": "", "val": ""})
-						continue
+				if fl := calls[c]; fl != nil {
+					if fl.parked && f[0] == "B" {
+						fl.parked = false
+						resume(c, predicted)
+					} else {
+						skipped++ // the real call is still in flight (model and code disagree about it)
 					}
-					emit("Pre", c, "", "ctxdone", resultFields(c, fl, r))
 					continue
 				}
-				res := "rejected"
-				x := map[string]any{}
-				if admitted {
-					res = "admitted"
+				fl, how := start(c, f[0] == "P")
+				switch {
+				case f[0] == "P" && how == "returned":
+					emit("Pre", c, "", "ctxdone", resultFields(fl))
+				case f[0] == "P":
+					// a done context must never get this far
 					calls[c] = fl
-				} else {
-					x = resultFields(c, fl, r)
+					emit("Pre", c, "", how, map[string]any{"err": "", "est": "", "fb": fl.fb, "fbc": false, "fberr": "", "val": ""})
+				case how == "parked":
+					parks++
+					calls[c] = fl
+					if f[0] != "K" {
+						predMismatch++
+					}
+					emit("Park", c, "", "", nil)
+				default:
+					if f[0] == "K" {
+						predMismatch++
+					}
+					begun(c, fl, how, predicted, map[string]any{"stale": false})
 				}
-				if len(f) > 2 && f[2] != res {
-					predMismatch++
-				}
-				emit("Begin", c, "", res, x)
 			case "E":
 				c := f[1]
-				if calls[c] == nil {
+				if calls[c] == nil || calls[c].parked {
 					skipped++
 					continue
 				}
@@ -319,20 +387,30 @@ func runBreaker(bfile, tfile, cfgJSON string) {
 				die("unknown op", s)
 			}
 		}
-		// suffix: let every call still in flight succeed, then read the metrics
+		// suffix: resume the parked callers, let every call in flight succeed, then read the metrics
 		var rest []string
 		for c := range calls {
 			rest = append(rest, c)
 		}
 		sort.Strings(rest)
 		for _, c := range rest {
-			finish(c, "ok")
+			if calls[c].parked {
+				calls[c].parked = false
+				resume(c, "")
+			}
+		}
+		for _, c := range rest {
+			if calls[c] != nil {
+				finish(c, "ok")
+			}
 		}
 		emit("Metrics", "", "", "", metricsFields(br.Metrics()))
+		sc.Close()
 	}
 	n := w.Count()
 	if err := w.Close(); err != nil {
 		die(err)
 	}
-	fmt.Printf("{\"behaviours\":%d,\"events\":%d,\"skipped\":%d,\"pred_mismatch\":%d}\n", len(behaviours), n, skipped, predMismatch)
+	fmt.Printf("{\"behaviours\":%d,\"events\":%d,\"skipped\":%d,\"pred_mismatch\":%d,\"parks\":%d,\"stale_resumes\":%d}\n",
+		len(behaviours), n, skipped, predMismatch, parks, stales)
 }
